@@ -122,10 +122,23 @@ type Site struct {
 	Owns []string
 }
 
+// modifyKinds are edits that change one aspect of an existing object; two *different* ones may be combined on the
+// same object (the differ then reports one Modify change with the union of the kind flags).
+var modifyKinds = map[string]bool{"modify-null": true, "modify-type": true, "modify-default": true, "modify-comment": true,
+	"index-unique": true, "index-desc": true, "index-type": true, "index-where": true, "index-comment": true,
+	"fk-ondelete": true, "fk-onupdate": true, "fk-column": true, "fk-refcolumn": true}
+
+// ModifyKind reports whether an edit kind changes one aspect of an existing object.
+func ModifyKind(k string) bool { return modifyKinds[k] }
+
 func Conflict(a, b Site) bool {
+	combinable := modifyKinds[a.E.Kind] && modifyKinds[b.E.Kind] && a.E.Kind != b.E.Kind && a.E.Table == b.E.Table && a.E.Obj == b.E.Obj
 	for _, x := range a.Owns {
 		for _, y := range b.Owns {
 			if x == y {
+				if combinable && len(a.Owns) > 0 && len(b.Owns) > 0 && x == a.Owns[0] && y == b.Owns[0] {
+					continue // the shared object itself; any further shared token still conflicts
+				}
 				return true
 			}
 			for _, p := range [][2]string{{x, y}, {y, x}} {
